@@ -34,6 +34,8 @@ class Ctx:
 
 def _start(ctx: Ctx, attach) -> None:
     w = ctx.w
+    ctx.info["base_ind"] = len(w.ind_log)  # what a prelude transaction logged is not the run's own
+    ctx.info["base_fault"] = len(w.fault_log)
     msgs, oid = build_msgs(w.cfg.msgs)
     ctx.oid = oid
     ctx.info["msgs"] = msgs
@@ -47,7 +49,7 @@ def _start(ctx: Ctx, attach) -> None:
 # ---------------------------------------------------------------------------------------------
 
 
-def prelude(w, same_request: bool = False, idle_ms: int = 0) -> bool:
+def prelude(w, same_request: bool = False, idle_ms: int = 0, mode=None, closure=None) -> bool:
     """An earlier, fault-free, complete transaction on the same handler objects and the same filestore (not
     judged: monitors are attached afterwards). With same_request the very request of the run is executed
     (same path, size and content), otherwise the file goes to dst/prev.bin."""
@@ -57,6 +59,10 @@ def prelude(w, same_request: bool = False, idle_ms: int = 0) -> bool:
     req = w.put_request_obj(None)
     if not same_request:
         req.dest_file = Path("dst/prev.bin")
+    if mode is not None:
+        req.trans_mode = mode
+    if closure is not None:
+        req.closure_requested = closure
     saved = (w.link.enabled, w.link.hook, dict(w.link.partition), w.pacing, w.fs_fault)
     w.link.enabled, w.link.hook, w.pacing, w.fs_fault = set(), None, "regular", None
     w.call(w.a, "src", "put", arg=req)
@@ -85,6 +91,13 @@ def faultfree(t, attach=None, force=None) -> Ctx:
     w.pacing = "random" if t.choose(4, "pacing") != 3 else "regular"
     w.max_events = 4000 + 8 * (cfg.size // max(cfg.eff_seg, 1))
     w.max_t = 10_000_000
+    # a quarter of the runs: the handlers already completed a transfer (any mode / closure), followed by idle time
+    # that may exceed every timer interval (the clock is virtual)
+    if t.choose(4, "prelude") == 3:
+        prelude(w, same_request=bool(t.choose(2, "prelude same request")), idle_ms=[0, 5000, 200_000_000][t.choose(3, "prelude idle")],
+                mode=[None, ACK, UNACK][t.choose(3, "prelude mode")], closure=[None, True, False][t.choose(3, "prelude closure")])
+        w.max_events += w.nev
+        w.max_t += w.clock.t
     _start(ctx, attach)
     ctx.reason = w.run()
     ctx.nontrivial = w.pacing == "random"
